@@ -154,6 +154,11 @@ const TARGETS: &[Target] = &[
     Target { file: "ssz/src/decode.rs", imp: "SszDecoderBuilder", tr: "", name: "build", coq: "builder_build" },
     Target { file: "ssz/src/decode.rs", imp: "SszDecoder", tr: "", name: "decode_next_with", coq: "decoder_decode_next_with" },
     Target { file: "ssz/src/decode.rs", imp: "SszDecoder", tr: "", name: "decode_next", coq: "decoder_decode_next" },
+    Target { file: "ssz/src/decode/try_from_iter.rs", imp: "Vec<T>", tr: "TryFromIter", name: "try_from_iter", coq: "tfi_vec_try_from_iter" },
+    Target { file: "ssz/src/decode/try_from_iter.rs", imp: "SmallVec<[T;N]>", tr: "TryFromIter", name: "try_from_iter", coq: "tfi_smallvec_try_from_iter" },
+    Target { file: "ssz/src/decode/try_from_iter.rs", imp: "BTreeMap<K,V>", tr: "TryFromIter", name: "try_from_iter", coq: "tfi_btreemap_try_from_iter" },
+    Target { file: "ssz/src/decode/try_from_iter.rs", imp: "BTreeSet<T>", tr: "TryFromIter", name: "try_from_iter", coq: "tfi_btreeset_try_from_iter" },
+    Target { file: "ssz/src/decode/try_from_iter.rs", imp: "I", tr: "TryCollect", name: "try_collect", coq: "try_collect" },
     Target { file: "ssz/src/decode/impls.rs", imp: "", tr: "", name: "decode_list_of_variable_length_items", coq: "decode_list_of_variable_length_items" },
     // Decode impls of the leaf types and the generic wrappers (ssz/src/decode/impls.rs)
     Target { file: "ssz/src/decode/impls.rs", imp: "u8", tr: "Decode", name: "is_ssz_fixed_len", coq: "u8_dec_is_ssz_fixed_len" },
@@ -1011,7 +1016,8 @@ impl Cx {
                 if !self.dict_used.contains(&("K".to_string(), "cmp".to_string())) {
                     self.dict_used.push(("K".to_string(), "cmp".to_string()));
                 }
-                all.push("(btreemap_try_from_iter K_cmp)".to_string());
+                // the source's own impl when it is translated (`tfi_..`), std's `from_iter` as a primitive otherwise
+                all.push(if self.dict_sigs.contains_key("tfi_btreemap_try_from_iter") { "(tfi_btreemap_try_from_iter K_cmp)" } else { "(btreemap_try_from_iter K_cmp)" }.to_string());
                 continue;
             }
             if self.dict_params.contains(&tp) {
@@ -1024,9 +1030,14 @@ impl Cx {
                     if !self.dict_used.contains(&("T".to_string(), "cmp".to_string())) {
                         self.dict_used.push(("T".to_string(), "cmp".to_string()));
                     }
-                    all.push("(btreeset_try_from_iter T_cmp)".to_string());
+                    all.push(if self.dict_sigs.contains_key("tfi_btreeset_try_from_iter") { "(tfi_btreeset_try_from_iter T_cmp)" } else { "(btreeset_try_from_iter T_cmp)" }.to_string());
                 } else {
-                    all.push(format!("{}_try_from_iter", base_of(&self.cur_imp).to_lowercase()));
+                    let b = base_of(&self.cur_imp).to_lowercase();
+                    if self.dict_sigs.contains_key(&format!("tfi_{}_try_from_iter", b)) {
+                        all.push(if b == "smallvec" { "(tfi_smallvec_try_from_iter tN)".to_string() } else { format!("tfi_{}_try_from_iter", b) });
+                    } else {
+                        all.push(format!("{}_try_from_iter", b));
+                    }
                 }
             } else {
                 return Err(format!("cannot supply {} to the generic function {}", member, coq));
@@ -1555,6 +1566,31 @@ impl Cx {
                         let a = self.val(&c.args[0])?;
                         Ok((a, Pure))
                     }
+                    // `Self::from_iter(iter)` in the `TryFromIter` impls: std's `FromIterator` of the collection
+                    "Self::from_iter" if c.args.len() == 1 => {
+                        let a = self.val(&c.args[0])?;
+                        match base_of(&self.cur_imp).as_str() {
+                            "SmallVec" => Ok((format!("(smallvec_from_iter {})", a), Pure)),
+                            "BTreeSet" => {
+                                if !self.dict_used.contains(&("T".to_string(), "cmp".to_string())) {
+                                    self.dict_used.push(("T".to_string(), "cmp".to_string()));
+                                }
+                                Ok((format!("(btreeset_from_iter T_cmp {})", a), Pure))
+                            }
+                            "BTreeMap" => {
+                                if !self.dict_used.contains(&("K".to_string(), "cmp".to_string())) {
+                                    self.dict_used.push(("K".to_string(), "cmp".to_string()));
+                                }
+                                Ok((format!("(btreemap_from_iter K_cmp {})", a), Pure))
+                            }
+                            other => Err(format!("from_iter of {}", other)),
+                        }
+                    }
+                    // `Vec::with_capacity(n)`: the empty vector (the reservation is Alloc.v's subject, not a value)
+                    "Vec::with_capacity" if c.args.len() == 1 => {
+                        let _ = self.val(&c.args[0])?;
+                        Ok(("[]".into(), Pure))
+                    }
                     "std::default::Default::default" | "Default::default" => Ok(("DEFAULT".into(), Pure)),
                     "iter::empty" | "std::iter::empty" => Ok(("[]".into(), Pure)),
                     "std::mem::size_of" | "mem::size_of" | "size_of" => {
@@ -1833,6 +1869,9 @@ impl Cx {
                     if !self.dict_used.contains(&(cont.clone(), "try_from_iter".to_string())) {
                         self.dict_used.push((cont.clone(), "try_from_iter".to_string()));
                     }
+                    if self.dict_sigs.contains_key("try_collect") {
+                        return Ok((format!("try_collect {}_try_from_iter {}", cont, v), Comp));
+                    }
                     return Ok((format!("{}_try_from_iter {}", cont, v), Comp));
                 }
             }
@@ -1964,6 +2003,8 @@ impl Cx {
                 let a = arg(self, 0)?;
                 (format!("(chunks_n {} {})", r, a), Pure)
             }
+            // of an iterator over a list (exact size): (remaining, Some(remaining))
+            "size_hint" => (format!("(llen {}, Some (llen {}))", r, r), Pure),
             "unwrap_or" => {
                 let a = arg(self, 0)?;
                 (format!("(opt_unwrap_or {} {})", r, a), Pure)
@@ -2761,7 +2802,7 @@ impl Cx {
                         format!("resize_n {} {} {}", var, a0, a1)
                     }
                     "truncate" => format!("truncate_n {} {}", var, a0),
-                    "extend_from_slice" => format!("{} ++ {}", var, a0),
+                    "extend_from_slice" | "extend" => format!("{} ++ {}", var, a0),
                     _ => format!("{} ++ [{}]", var, a0),
                 };
                 let body = self.block(rest, k)?;
@@ -2988,7 +3029,7 @@ impl Cx {
 fn local_mutator(e: &Expr) -> Option<(String, String)> {
     if let Expr::MethodCall(m) = e {
         let name = m.method.to_string();
-        if matches!(name.as_str(), "resize" | "truncate" | "extend_from_slice" | "push") {
+        if matches!(name.as_str(), "resize" | "truncate" | "extend_from_slice" | "push" | "extend") {
             if let Expr::Path(p) = &*m.receiver {
                 if p.path.segments.len() == 1 {
                     return Some((path_str(&p.path), name));
@@ -3387,7 +3428,7 @@ fn main() {
     };
     // type parameters bounded by Decode / Encode (in the parameter list or the where clause)
     fn is_dict_bound(b: &str) -> bool {
-        b.split(|c: char| !c.is_alphanumeric() && c != '_').any(|w| matches!(w, "Decode" | "Encode" | "TryFromIter"))
+        b.split(|c: char| !c.is_alphanumeric() && c != '_').any(|w| matches!(w, "Decode" | "Encode" | "TryFromIter" | "Ord"))
             && !b.contains("Fn(") && !b.contains("FnOnce(") && !b.contains("FnMut(")
     }
     let dicts = |g: &syn::Generics| -> Vec<String> {
@@ -3557,7 +3598,7 @@ fn main() {
                         let t = if user().generics.contains_key(&base) { force_type_param = true; self_ty_coq(&base).unwrap_or(base.clone()) } else { base.clone() };
                         params.push(format!("(self : {})", t));
                     } else {
-                        match self_ty_coq(imp_key).or_else(|| if imp_key == "T" && dict_params.iter().any(|d| d == "T") { Some("A_T".to_string()) } else { None }) {
+                        match self_ty_coq(imp_key).or_else(|| if imp_key == "T" && dict_params.iter().any(|d| d == "T") { Some("A_T".to_string()) } else if imp_key == "I" && t.tr == "TryCollect" { Some("(list A_T)".to_string()) } else { None }) {
                             Some(t) => {
                                 if t.contains("A_T") {
                                     force_type_param = true;
@@ -3578,6 +3619,15 @@ fn main() {
                         if bound.contains("Iterator<Item=") {
                             let item = bound.split("Iterator<Item=").nth(1).and_then(|x| x.split('>').next()).unwrap_or("T").to_string();
                             cx.list_vars.push(name.clone());
+                            if item.starts_with('(') {
+                                // an iterator of tuples `(K, V)`: a list of pairs
+                                let comps: Vec<String> = item.trim_start_matches('(').trim_end_matches(')').split(',').map(|x| x.trim().to_string()).collect();
+                                for c in &comps {
+                                    force_types.push(c.clone());
+                                }
+                                params.push(format!("({} : list ({}))", name, comps.iter().map(|c| format!("A_{}", c)).collect::<Vec<_>>().join(" * ")));
+                                continue;
+                            }
                             force_type_param = true;
                             params.push(format!("({} : list A_{})", name, item));
                             continue;
@@ -3691,6 +3741,7 @@ fn main() {
                                     // `Container: TryFromIter<T>`: the item type is the bound's argument
                                     let b = cx.dict_bounds.get(d).cloned().unwrap_or_default();
                                     let item = b.split("TryFromIter<").nth(1).and_then(|x| x.split('>').next()).unwrap_or("T").to_string();
+                                    let item = if item == "Self::Item" { "T".to_string() } else { item };
                                     format!("({}_{} : list A_{} -> outcome A_{})", d, m, item, d)
                                 }
                                 _ => format!("({}_{} : bytes -> outcome A_{})", d, m, d),
